@@ -16,6 +16,7 @@ Only imports other `QV.Model` files.
 -/
 import QV.Model.Rbm
 import QV.Model.Hilbert
+import QV.Model.PyFlag
 namespace QV
 
 /-- A finite probabilistic program: return a value, or present probability `p` to the sampler
@@ -203,5 +204,13 @@ def gibbsCall {σ : Type} (steps : σ → Prog α σ) (fresh : Nat) (overwrite :
   (steps v.data).map fun final =>
     let res : Buf σ := { v with data := final }
     ⟨res, if init.id = res.id then { init with data := final } else init⟩
+
+/-- `gibbs_steps(k, initial_state, overwrite)` / `sample(k, num_samples, initial_state, overwrite)` with `overwrite` the OBJECT the
+caller passed (documented as `bool`; `1`, `numpy.bool_`, 0-dim bool arrays / tensors occur in practice): `sample` hands it on
+untouched (neural_state.py:131) and `gibbs_steps` tests it with `initial_state if overwrite else initial_state.clone()`
+(binary_rbm.py:220, purification_rbm.py:327) — Python truthiness. -/
+def gibbsCallF {σ : Type} (steps : σ → Prog α σ) (fresh : Nat) (overwrite : PyFlag) (init : Buf σ) :
+    Prog α (CallResult σ) :=
+  gibbsCall steps fresh overwrite.truthy init
 
 end QV
